@@ -1,10 +1,11 @@
-import GcArena.Proofs.Events
+import GcArena.Proofs.LogRun
 /-!
 # C04 — Every value is destructed exactly once and all memory is returned
 
 Event discipline: `dropped i` / `freed i` are appended to the monotone log only by `sweep_one` and
-by `DropAll` (`Ctx.dropAll`).  The local facts below are proved; the history-level statements are
-kept at full strength while the log invariant (`Proofs/LogInv`) is being developed.
+by `DropAll` (`Ctx.dropAll`).  The history-level theorems are corollaries of the log invariant
+`LInv` (Proofs/LogInv.lean) proved for every history by `linv_run`; ids are never reused
+(`heap.size` only grows), so "the same id" means "the same allocation".
 -/
 namespace GcArena.C04
 
@@ -59,21 +60,66 @@ theorem only_sweep_emits {c c' : Ctx} {root} (h : CInv c root []) (m : Micro)
       simp [Ctx.sweepOne, hp.2]
     · cases hs
 
-/-- Full statement: over any history, no id is destructed twice or released twice, and a release
-    is preceded by the destruction. -/
-def once_statement : Prop :=
-  ∀ (n : Nat) (ops : List Op), ((Arena.new n).run ops).ctx.log.Nodup ∧
-    ∀ i, Event.freed i ∈ ((Arena.new n).run ops).ctx.log → Event.dropped i ∈ ((Arena.new n).run ops).ctx.log
+/-- Over any history — any interleaving, any phase in which the arena is finally dropped, or
+    not dropped at all — no value is destructed twice and no block is released twice (the log has
+    no duplicates), and every release is preceded by the destruction of that value. -/
+theorem once (n : Nat) (ops : List Op) :
+    ((Arena.new n).run ops).ctx.log.Nodup ∧
+    ∀ i, Event.freed i ∈ ((Arena.new n).run ops).ctx.log → Event.dropped i ∈ ((Arena.new n).run ops).ctx.log :=
+  ⟨(linv_run n ops).nodup, (linv_run n ops).freedDropped⟩
 
-/-- Full statement: dropping the arena in any phase destructs exactly the live values, releases
-    every block, and leaves the count at zero. -/
-def drop_arena_statement : Prop :=
-  ∀ (n : Nat) (ops : List Op), ((Arena.new n).run ops).alive = true → ((Arena.new n).run ops).cb = none →
+/-- A released block is gone for good and its id is never handed out again: every logged id is
+    below the allocation counter. -/
+theorem released_is_gone (n : Nat) (ops : List Op) (i : Nat)
+    (h : Event.freed i ∈ ((Arena.new n).run ops).ctx.log) :
+    ((Arena.new n).run ops).ctx.heap.get i = none ∧ i < ((Arena.new n).run ops).ctx.heap.size :=
+  ⟨(linv_run n ops).freedGone i h, (linv_run n ops).bound _ h⟩
+
+/-- `is_dropped` (the cleared `live` flag of an allocated block) is exact: it is set iff the
+    destructor of that value has run, and — the log being monotone — it never reverts (C05). -/
+theorem is_dropped_exact (n : Nat) (ops : List Op) (i : Nat) (o : Obj)
+    (ho : ((Arena.new n).run ops).ctx.heap.get i = some o) :
+    o.live = false ↔ Event.dropped i ∈ ((Arena.new n).run ops).ctx.log :=
+  ⟨(linv_run n ops).deadDropped i o ho, fun h => (linv_run n ops).droppedDead i h o ho⟩
+
+/-- Dropping the arena at any point of any history (asleep, mid-mark, fully marked, mid-sweep,
+    with shells): afterwards every id ever allocated is logged as destructed and as released —
+    each exactly once (`once`) — nothing is allocated any more and the count reads zero. -/
+theorem drop_arena (n : Nat) (ops : List Op) (halive : ((Arena.new n).run ops).alive = true)
+    (hcb : ((Arena.new n).run ops).cb = none) :
     let a := (Arena.new n).run ops
     let a' := (a.step .dropArena).1
-    a'.ctx.metrics.totalGcs = 0 ∧
+    a'.ctx.metrics.totalGcs = 0 ∧ a'.ctx.metrics.underflow = false ∧ a'.alive = false ∧
+    (∀ j, a'.ctx.heap.get j = none) ∧
     (∀ i, i < a.ctx.heap.size → Event.freed i ∈ a'.ctx.log ∧ Event.dropped i ∈ a'.ctx.log) ∧
-    a'.ctx.log.Nodup
+    a'.ctx.log.Nodup := by
+  intro a a'
+  have hi : Inv a := inv_run n ops halive
+  have hl : LInv a.ctx := linv_run n ops
+  have hnot : (!a.alive) = false := by rw [hi.alive]; rfl
+  have ha' : a' = { ({ a with marked := false } : Arena) with ctx := a.ctx.dropAll, alive := false, root := [], cover := [] } := by
+    show (a.step .dropArena).1 = _
+    unfold Arena.step
+    rw [hnot]
+    simp only [Bool.false_eq_true, if_false, Arena.stepBody]
+    have hcb' : a.cb = none := hcb
+    rw [hcb']
+    rfl
+  obtain ⟨d1, d2, d3, d4, d5⟩ := dropAll_spec hi.cinv hl
+  rw [ha']
+  refine ⟨d3, d4, rfl, d2, ?_, d1.nodup⟩
+  intro i hi'
+  have hf := d1.goneFreed i (by rw [d5]; exact hi') (d2 i)
+  exact ⟨hf, d1.freedDropped i hf⟩
+
+/-- Every id below the allocation counter is either still allocated or logged as released:
+    nothing leaks from the collector's books in any state of any history. -/
+theorem nothing_unaccounted (n : Nat) (ops : List Op) (i : Nat)
+    (hi : i < ((Arena.new n).run ops).ctx.heap.size) :
+    (∃ o, ((Arena.new n).run ops).ctx.heap.get i = some o) ∨ Event.freed i ∈ ((Arena.new n).run ops).ctx.log := by
+  cases hg : ((Arena.new n).run ops).ctx.heap.get i with
+  | some o => exact Or.inl ⟨o, rfl⟩
+  | none => exact Or.inr ((linv_run n ops).goneFreed i hi hg)
 
 /-! ### Non-vacuity: dropping mid-sweep with a shell, a kept object and a condemned one -/
 
